@@ -154,6 +154,14 @@ theorem take_drop_succ_of_getElem? {α} (l : List α) (c : Nat) (v : α) (h : l[
   rw [List.getElem?_eq_getElem hc] at h
   cases h; rfl
 
+theorem mem_take_drop_some {α} (l : List α) (c n : Nat) :
+    ∀ v, some v ∈ ((l.drop c).take n).map some → v ∈ l.take (c + n) := by
+  intro v hv
+  obtain ⟨w, hw, hwv⟩ := List.mem_map.1 hv
+  cases hwv
+  rw [List.take_drop] at hw
+  exact List.mem_of_mem_drop hw
+
 /-! ## the iterator -/
 
 theorem next_eq (it : IterSt) :
@@ -488,6 +496,9 @@ theorem dropIds_dropsOf (vs : List Item) : dropIds (dropsOf vs) = vs.map (·.id)
     simp only [dropsOf, dropIds, List.map_cons, List.filterMap_cons, Event.dropId?] at ih ⊢
     rw [ih]
 
+theorem dropIds_alloc (b s a : Nat) : dropIds [Event.alloc b s a] = [] := rfl
+theorem dropIds_dealloc (b s a : Nat) : dropIds [Event.dealloc b s a] = [] := rfl
+
 theorem dropIds_hdrDrops (h : Option Item) : dropIds (hdrDrops h) = h.toList.map (·.id) := by
   cases h <;> rfl
 
@@ -522,10 +533,12 @@ inductive CoreOut (m : Mem) (hdrLay : Layout) (hdr : Option Item) (recLen : Opti
         (.panicked ⟨m.blocks, m.log ++ dropsOf (it.sc.items.drop it.nextCalls), m.nextClone⟩
           "layout-overflow")
   /-- a panic after the allocation: the block is leaked; the items not yet moved into it (those
-  from index `k` on) are dropped with the iterator -/
+  from index `k` on) are dropped with the iterator; what was written into the block comes from
+  the items before index `k` -/
   | leaked (lay : Layout) (es : List (Option Item)) (k : Nat) (cls : String) :
       allocLayoutHeaderSlice bits hdrLay trackedLay n = some lay →
       it.nextCalls ≤ k →
+      (∀ v, some v ∈ es → v ∈ it.sc.items.take k) →
       CoreOut m hdrLay hdr recLen ty n it
         (.panicked ⟨m.blocks ++ [⟨1, true, lay, hdr, recLen, es, true⟩],
                     m.log ++ [.alloc m.blocks.length lay.size lay.align] ++ dropsOf (it.sc.items.drop k),
@@ -543,7 +556,7 @@ theorem core_spec (m : Mem) (hdrLay : Layout) (hdr : Option Item) (recLen : Opti
     · next cls it' hf =>
       obtain ⟨hsc, h1, _, _⟩ := fillLoop_error_inv _ _ _ _ _ hf
       simp only [Mem.leak, upd_new, Mem.emit, IterSt.dropRest, hsc]
-      exact .leaked lay _ it'.nextCalls cls hal h1
+      exact .leaked lay _ it'.nextCalls cls hal h1 (by simp)
     · next elems it' hf =>
       obtain ⟨rfl, h2, rfl⟩ := fillLoop_ok_inv _ _ _ _ _ hf
       simp only [upd_new, List.nil_append]
@@ -567,11 +580,11 @@ theorem core_spec (m : Mem) (hdrLay : Layout) (hdr : Option Item) (recLen : Opti
             = dropsOf (it.sc.items.drop (it.nextCalls + n)) := by
           rw [take_drop_succ_of_getElem? _ _ _ hv]; rfl
         rw [this]
-        exact .leaked lay _ (it.nextCalls + n) _ hal (by omega)
+        exact .leaked lay _ (it.nextCalls + n) _ hal (by omega) (mem_take_drop_some _ _ _)
       · next it2 hn =>
         obtain ⟨_, rfl⟩ := next_panic hn
         simp only [Mem.leak, upd_new, Mem.emit, IterSt.dropRest]
-        exact .leaked lay _ (it.nextCalls + n) _ hal (by omega)
+        exact .leaked lay _ (it.nextCalls + n) _ hal (by omega) (mem_take_drop_some _ _ _)
 
 /-- the write loop and the exhaustion check on an honest iterator with exactly `n` items left -/
 theorem core_honest (m : Mem) (hdrLay : Layout) (hdr : Option Item) (recLen : Option Nat) (ty : Ty)
@@ -610,8 +623,10 @@ inductive IterOut (m : Mem) (which : IterCtor) (h : Option Item) (sc : IterScrip
       IterOut m which h sc
         (.panicked ⟨m.blocks, m.log ++ dropsOf (sc.items.drop k), m.nextClone⟩ cls)
   /-- a panic after the allocation: the half-built block is leaked (never destroyed); the items
-  from some index `k` on are dropped with the iterator -/
+  from some index `k` on are dropped with the iterator; whatever was written into the block
+  comes from the items before index `k` -/
   | leaked (lay : Layout) (rl : Option Nat) (es : List (Option Item)) (k : Nat) (cls : String) :
+      (∀ v, some v ∈ es → v ∈ sc.items.take k) →
       IterOut m which h sc
         (.panicked ⟨m.blocks ++ [⟨1, true, lay, which.hdrOf h, rl, es, true⟩],
                     m.log ++ [.alloc m.blocks.length lay.size lay.align] ++ dropsOf (sc.items.drop k),
@@ -658,7 +673,7 @@ theorem fromIter_spec (m : Mem) (dbg : Bool) (which : IterCtor)
             subst hn'
             exact .built lay hal
           | noAlloc hal => exact .noBlock 0 _
-          | leaked lay es k cls hal hk => exact .leaked lay _ es k cls
+          | leaked lay es k cls hal hk hes => exact .leaked lay _ es k cls hes
     · split
       · next it' hc =>
         obtain ⟨hsc, _, _⟩ := collectAll_none_inv _ _ _ _ hc
@@ -694,7 +709,7 @@ theorem runIterCtor_spec (m : Mem) (dbg : Bool) (which : IterCtor) (h : Option I
       subst hn'
       exact .built lay hal
     | noAlloc hal => exact .noBlock 0 _
-    | leaked lay es k cls hal hk => exact .leaked lay _ es k cls
+    | leaked lay es k cls hal hk hes => exact .leaked lay _ es k cls hes
   | thinFromIter =>
     simp only [runIterCtor, IterSt.len]
     generalize nthOrLast sc.lens 0 sc.items.length = N1
@@ -704,7 +719,7 @@ theorem runIterCtor_spec (m : Mem) (dbg : Bool) (which : IterCtor) (h : Option I
       { sc := sc, lenCalls := 0 + 1 + 1 } = r at hs
     cases hs with
     | noAlloc hal => exact .noBlock 0 _
-    | leaked lay es k cls hal hk => exact .leaked lay _ es k cls
+    | leaked lay es k cls hal hk hes => exact .leaked lay _ es k cls hes
     | built lay hal hn =>
       have hn' : N2 = sc.items.length := hn
       subst hn'
@@ -718,4 +733,246 @@ theorem runIterCtor_spec (m : Mem) (dbg : Bool) (which : IterCtor) (h : Option I
           payloadDrops_written _ _ _ _ sc.items rfl rfl rfl]
         exact .thinMismatch lay N1 rfl hN hal
 
+/-! ## the plain constructors -/
+
+/-- the handle value a constructor returns for block `b` -/
+def Ctor.handle (b : Nat) : Ctor → HV
+  | .new _ => ⟨.arc, .sized, b, 0, 0⟩
+  | .newB _ => ⟨.arc, .sizedB, b, 0, 0⟩
+  | .fromBox _ => ⟨.arc, .sized, b, 0, 0⟩
+  | .uniqueNew _ => ⟨.uniq, .sized, b, 0, 0⟩
+  | .fromVec vs => ⟨.arc, .slice, b, 0, vs.length⟩
+  | .hsFromVec _ vs => ⟨.arc, .hs, b, 0, vs.length⟩
+  | .hwlFromVec _ _ vs => ⟨.arc, .hwl, b, 0, vs.length⟩
+  | .newUninit => ⟨.arc, .mu, b, 0, 0⟩
+  | .uniqueNewUninit => ⟨.uniq, .mu, b, 0, 0⟩
+  | .newUninitSlice n => ⟨.arc, .muSlice, b, 0, n⟩
+  | .uniqueNewUninitSlice n => ⟨.uniq, .muSlice, b, 0, n⟩
+  | .hsUninit _ n => ⟨.uniq, .hsMu, b, 0, n⟩
+
+/-- the layout a constructor requests (`none` = the layout computation overflows: the Rust panics
+before allocating) -/
+def Ctor.lay? : Ctor → Option Layout
+  | .new _ | .uniqueNew _ | .newUninit => some (allocLayoutBoxNew bits trackedLay)
+  | .newB _ => some (allocLayoutBoxNew bits trackedBLay)
+  | .fromBox _ => allocLayoutFor bits trackedLay
+  | .uniqueNewUninit => some (allocLayoutNewUninit bits trackedLay)
+  | .fromVec vs => allocLayoutHeaderSlice bits unitLayout trackedLay vs.length
+  | .hsFromVec _ vs => allocLayoutHeaderSlice bits trackedLay trackedLay vs.length
+  | .hwlFromVec _ _ vs => allocLayoutHeaderSlice bits Ty.hwl.hdrLay trackedLay vs.length
+  | .newUninitSlice n | .uniqueNewUninitSlice n => allocLayoutHeaderSlice bits unitLayout trackedLay n
+  | .hsUninit _ n => allocLayoutHeaderSlice bits trackedLay trackedLay n
+
+/-- the slots of the new block -/
+def Ctor.elems (c : Ctor) : List (Option Item) :=
+  if c.takesValues then c.vals.map some else List.replicate c.slots none
+
+/-- complete characterisation of `runCtor` -/
+theorem runCtor_eq (m : Mem) (c : Ctor) :
+    runCtor m c = c.lay?.map fun lay =>
+      (⟨m.blocks ++ [⟨1, true, lay, c.hdr, c.recLen, c.elems, false⟩],
+        m.log ++ [.alloc m.blocks.length lay.size lay.align], m.nextClone⟩,
+       c.handle m.blocks.length) := by
+  cases c with
+  | new v => rfl
+  | newB v => rfl
+  | uniqueNew v => rfl
+  | newUninit => rfl
+  | uniqueNewUninit => rfl
+  | fromBox v =>
+    simp only [runCtor, Ctor.lay?]
+    cases allocLayoutFor bits trackedLay <;> rfl
+  | fromVec vs =>
+    simp only [runCtor, Ctor.lay?, allocHeaderSlice, List.length_map]
+    cases allocLayoutHeaderSlice bits unitLayout trackedLay vs.length <;> rfl
+  | hsFromVec h vs =>
+    simp only [runCtor, Ctor.lay?, allocHeaderSlice, List.length_map]
+    cases allocLayoutHeaderSlice bits trackedLay trackedLay vs.length <;> rfl
+  | hwlFromVec h r vs =>
+    simp only [runCtor, Ctor.lay?, allocHeaderSlice, List.length_map]
+    cases allocLayoutHeaderSlice bits Ty.hwl.hdrLay trackedLay vs.length <;> rfl
+  | newUninitSlice n =>
+    simp only [runCtor, Ctor.lay?, allocHeaderSlice, List.length_replicate]
+    cases allocLayoutHeaderSlice bits unitLayout trackedLay n <;> rfl
+  | uniqueNewUninitSlice n =>
+    simp only [runCtor, Ctor.lay?, allocHeaderSlice, List.length_replicate]
+    cases allocLayoutHeaderSlice bits unitLayout trackedLay n <;> rfl
+  | hsUninit h n =>
+    simp only [runCtor, Ctor.lay?, allocHeaderSlice, List.length_replicate]
+    cases allocLayoutHeaderSlice bits trackedLay trackedLay n <;> rfl
+
+/-! ## honest iterators -/
+
+/-- an honest script: every `len()` answer is the number of items, every `size_hint()` answer is the
+exact pair, no `next()` call panics (`lens = []` / `hints = []` mean "the default answer") -/
+def IterScript.Honest (sc : IterScript) : Prop :=
+  (∀ x ∈ sc.lens, x = sc.items.length) ∧
+  (∀ x ∈ sc.hints, x = (sc.items.length, some sc.items.length)) ∧
+  sc.panicAt = none
+
+instance (sc : IterScript) : Decidable sc.Honest := by unfold IterScript.Honest; infer_instance
+
+/-- the result an honest run must produce -/
+def IterCtor.builtRes (which : IterCtor) (m : Mem) (h : Option Item) (items : List Item)
+    (lay : Layout) : CtorRes :=
+  .built ⟨m.blocks ++ [⟨1, true, lay, which.hdrOf h, which.recOf items.length, items.map some, false⟩],
+          m.log ++ [.alloc m.blocks.length lay.size lay.align], m.nextClone⟩
+         ⟨which.kind, which.ty, m.blocks.length, 0, which.lenOf items.length⟩
+
+theorem runIterCtor_honest (m : Mem) (dbg : Bool) (which : IterCtor) (h : Option Item)
+    (sc : IterScript) (hh : sc.Honest) (lay : Layout)
+    (hal : allocLayoutHeaderSlice bits which.hdrLay trackedLay sc.items.length = some lay) :
+    runIterCtor m dbg which h sc = which.builtRes m h sc.items lay := by
+  obtain ⟨hl, hs, hp⟩ := hh
+  cases which with
+  | hsFromIter =>
+    simp only [runIterCtor, IterSt.len, nthOrLast_all _ _ _ hl]
+    exact core_honest m trackedLay h none .hs { sc := sc, lenCalls := 0 + 1 } lay hp rfl hal
+  | thinFromIter =>
+    simp only [runIterCtor, IterSt.len, nthOrLast_all _ _ _ hl]
+    rw [show fromHeaderAndIterCore m Ty.hwl.hdrLay h (some sc.items.length) .hwl sc.items.length
+          { sc := sc, lenCalls := 0 + 1 + 1 } = _ from
+        core_honest m Ty.hwl.hdrLay h (some sc.items.length) .hwl
+          { sc := sc, lenCalls := 0 + 1 + 1 } lay hp rfl hal]
+    simp only [Arc.into_thin, getElem?_new, Option.bind_some, Option.getD_some, if_true]
+    rfl
+  | fromIter =>
+    simp only [runIterCtor, IterSt.sizeHint, nthOrLast_all _ _ _ hs, ne_eq, not_true_eq_false,
+      decide_false, Bool.and_false, Bool.false_eq_true, if_false, if_true]
+    rw [show fromHeaderAndIterCore m unitLayout none none .uslice sc.items.length
+          { sc := sc, hintCalls := 0 + 1 + 1 + 1 } = _ from
+        core_honest m unitLayout none none .uslice
+          { sc := sc, hintCalls := 0 + 1 + 1 + 1 } lay hp rfl hal]
+    rfl
+  | uniqueFromIter =>
+    simp only [runIterCtor, IterSt.sizeHint, nthOrLast_all _ _ _ hs, ne_eq, not_true_eq_false,
+      decide_false, Bool.and_false, Bool.false_eq_true, if_false, if_true, reduceCtorEq]
+    rw [show fromHeaderAndIterCore m unitLayout none none .uslice sc.items.length
+          { sc := sc, hintCalls := 0 + 1 + 1 + 1 } = _ from
+        core_honest m unitLayout none none .uslice
+          { sc := sc, hintCalls := 0 + 1 + 1 + 1 } lay hp rfl hal]
+    rfl
+
+/-- `FromIterator` with an inexact first `size_hint()` answer and an iterator that does not panic:
+the collect-to-`Vec` fallback, then `From<Vec>` (whatever `len()` and later hints say) -/
+theorem runIterCtor_inexact (m : Mem) (dbg : Bool) (which : IterCtor)
+    (hw : which = .fromIter ∨ which = .uniqueFromIter) (h : Option Item) (sc : IterScript)
+    (lo : Nat) (hi : Option Nat) (rest : List (Nat × Option Nat))
+    (hhint : sc.hints = (lo, hi) :: rest) (hne : some lo ≠ hi) (hp : sc.panicAt = none) (lay : Layout)
+    (hal : allocLayoutHeaderSlice bits which.hdrLay trackedLay sc.items.length = some lay) :
+    runIterCtor m dbg which h sc = which.builtRes m h sc.items lay := by
+  obtain ⟨it', hc⟩ := collectAll_ok (sc.items.length + 1) { sc := sc, hintCalls := 0 + 1 } [] hp
+    (by simp)
+  simp only [List.nil_append, List.drop_zero] at hc
+  rcases hw with rfl | rfl
+  all_goals
+    simp only [runIterCtor, IterSt.sizeHint, hhint, nthOrLast_cons_zero, hne, if_false, hc,
+      reduceCtorEq, if_true, runCtor_eq, Ctor.lay?]
+    rw [show allocLayoutHeaderSlice bits unitLayout trackedLay sc.items.length = some lay from hal]
+    rfl
+
+/-! ## destroying a fully written block through its only handle -/
+
+/-- `Drop` of the only `Arc`/`UniqueArc` handle of the block appended last, all of whose slots are
+written: the header and every element are destroyed once, in order, then one `.dealloc` -/
+theorem dropHandle_sole (bs : List Block) (log : List Event) (nc : Nat) (k : Block) (hv : HV)
+    (vs : List Item) (hk1 : k.count = 1) (hke : k.elems = vs.map some) (hb : hv.blk = bs.length)
+    (hkind : hv.kind = .arc ∨ hv.kind = .uniq) (hinit : hv.ty.elemsInit = true)
+    (hlen : (if hv.ty.isSlicey then hv.len else 1) = vs.length) :
+    dropHandle ⟨bs ++ [k], log, nc⟩ hv =
+      some ⟨bs ++ [{ k with count := 0, live := false }],
+        log ++ (hdrDrops k.hdr ++ dropsOf vs ++
+          [.dealloc bs.length (hv.ty.releaseLayout vs.length).size (hv.ty.releaseLayout vs.length).align]),
+        nc⟩ := by
+  have hvl : viewLen ⟨bs ++ [k], log, nc⟩ hv = vs.length := by
+    unfold viewLen
+    rcases hkind with hk | hk <;> simp only [hk, hlen]
+  have : dropHandle ⟨bs ++ [k], log, nc⟩ hv = some (Arc.drop ⟨bs ++ [k], log, nc⟩ hv) := by
+    unfold dropHandle
+    rcases hkind with hk | hk <;> simp only [hk]
+  rw [this, Arc.drop, hvl, hb, decr_new _ _ _ _ hk1, payloadDrops_written _ _ _ _ vs hke hinit rfl]
+
+/-- the same through the only `ThinArc` handle: the length is read from the block -/
+theorem dropHandle_sole_thin (bs : List Block) (log : List Event) (nc : Nat) (k : Block) (hv : HV)
+    (vs : List Item) (hk1 : k.count = 1) (hke : k.elems = vs.map some) (hb : hv.blk = bs.length)
+    (hkind : hv.kind = .thin) (hrec : k.recLen = some vs.length) :
+    dropHandle ⟨bs ++ [k], log, nc⟩ hv =
+      some ⟨bs ++ [{ k with count := 0, live := false }],
+        log ++ (hdrDrops k.hdr ++ dropsOf vs ++
+          [.dealloc bs.length (Ty.hwl.releaseLayout vs.length).size (Ty.hwl.releaseLayout vs.length).align]),
+        nc⟩ := by
+  have hvl : viewLen ⟨bs ++ [k], log, nc⟩ hv = vs.length := by
+    simp only [viewLen, hkind, hb, getElem?_new, Option.bind_some, hrec, Option.getD_some]
+  simp only [dropHandle, hkind, ThinArc.drop, ThinArc.thick, Arc.drop, hvl]
+  simp only [viewLen, Ty.isSlicey, if_true, hb]
+  rw [decr_new _ _ _ _ hk1, payloadDrops_written _ _ _ _ vs hke rfl rfl]
+
+/-! ## the layout computation does not overflow for any realistic length -/
+
+theorem hwl_hdrLay : Ty.hwl.hdrLay = ⟨16, 8⟩ := by decide
+
+theorem roundUp_lt' (n a : Nat) (ha : 0 < a) : roundUp n a < n + a := by
+  unfold roundUp
+  have := Nat.div_mul_le_self (n + a - 1) a
+  omega
+
+theorem layout_ok_aux (o A n : Nat) (ho : o ≤ 16) (hA : A = 4 ∨ A = 8) (hn : n ≤ 2 ^ 59)
+    (hs ha : Nat) (hoff : roundUp hs 4 = o) (hal : max ha 4 = A) :
+    (allocLayoutHeaderSlice 64 ⟨hs, ha⟩ ⟨8, 4⟩ n).isSome = true := by
+  have h59 : (2:Nat) ^ 59 = 576460752303423488 := by decide
+  rw [h59] at hn
+  have harr : Layout.array 64 ⟨8, 4⟩ n = some ⟨8 * n, 4⟩ :=
+    if_pos (show 8 * n ≤ 2 ^ 63 - 4 by omega)
+  have hext : Layout.extend 64 ⟨hs, ha⟩ ⟨8 * n, 4⟩ = some (⟨o + 8 * n, A⟩, o) := by
+    unfold Layout.extend
+    simp only [hoff, hal]
+    exact if_pos (show o + 8 * n ≤ 2 ^ 63 - A by omega)
+  have hv : headerSliceValueLayout 64 ⟨hs, ha⟩ ⟨8, 4⟩ n = some ⟨roundUp (o + 8 * n) A, A⟩ := by
+    simp only [headerSliceValueLayout, harr, hext, Option.map_some, Layout.padToAlign]
+  have hr := roundUp_lt' (o + 8 * n) A (by omega)
+  have h8 : roundUp 8 A = 8 := by rcases hA with rfl | rfl <;> decide
+  have hm : max 8 A = 8 := by omega
+  have hext2 : (Layout.extend 64 (wordLayout 64) ⟨roundUp (o + 8 * n) A, A⟩).isSome = true := by
+    have hc : roundUp 8 A + roundUp (o + 8 * n) A ≤ 2 ^ 63 - max 8 A := by omega
+    have : Layout.extend 64 (wordLayout 64) ⟨roundUp (o + 8 * n) A, A⟩ =
+        some (⟨roundUp 8 A + roundUp (o + 8 * n) A, max 8 A⟩, roundUp 8 A) := if_pos hc
+    rw [this]; rfl
+  simp only [allocLayoutHeaderSlice, hv, allocLayoutFor, Option.isSome_map, hext2]
+
+/-- `allocate_for_header_and_slice` succeeds for each of the three header shapes of the history
+model and every length up to 2^59 (the first failure is beyond 2^60 - 4 elements of 8 bytes) -/
+theorem layout_ok_unit (n : Nat) (hn : n ≤ 2 ^ 59) :
+    (allocLayoutHeaderSlice bits unitLayout trackedLay n).isSome = true :=
+  layout_ok_aux 0 4 n (by omega) (Or.inl rfl) hn 0 1 (by decide) (by decide)
+
+theorem layout_ok_tracked (n : Nat) (hn : n ≤ 2 ^ 59) :
+    (allocLayoutHeaderSlice bits trackedLay trackedLay n).isSome = true :=
+  layout_ok_aux 8 4 n (by omega) (Or.inl rfl) hn 8 4 (by decide) (by decide)
+
+theorem layout_ok_hwl (n : Nat) (hn : n ≤ 2 ^ 59) :
+    (allocLayoutHeaderSlice bits Ty.hwl.hdrLay trackedLay n).isSome = true := by
+  rw [hwl_hdrLay]
+  exact layout_ok_aux 16 8 n (by omega) (Or.inr rfl) hn 16 8 (by decide) (by decide)
+
+theorem layout_ok (which : IterCtor) (n : Nat) (hn : n ≤ 2 ^ 59) :
+    (allocLayoutHeaderSlice bits which.hdrLay trackedLay n).isSome = true := by
+  cases which
+  · exact layout_ok_tracked n hn
+  · exact layout_ok_hwl n hn
+  · exact layout_ok_unit n hn
+  · exact layout_ok_unit n hn
+
+theorem ctor_layout_ok (c : Ctor) (hv : c.vals.length ≤ 2 ^ 59) (hs : c.slots ≤ 2 ^ 59) :
+    c.lay?.isSome = true := by
+  cases c with
+  | fromBox v => exact (by decide : (allocLayoutFor bits trackedLay).isSome = true)
+  | fromVec vs => exact layout_ok_unit _ hv
+  | hsFromVec h vs => exact layout_ok_tracked _ hv
+  | hwlFromVec h r vs => exact layout_ok_hwl _ hv
+  | newUninitSlice n => exact layout_ok_unit _ hs
+  | uniqueNewUninitSlice n => exact layout_ok_unit _ hs
+  | hsUninit h n => exact layout_ok_tracked _ hs
+  | _ => rfl
+
 end M1
+
